@@ -125,7 +125,9 @@ pub fn check_one(ctx: &mut Ctx, p: [f64; 6], sp: SpacePoint, t: f64, what: &str)
 }
 
 fn run(ctx: &mut Ctx) {
-    let specials = [0.0, 5e-324, -5e-324, 1e-310, -1e-310, 2.2e-308, 1e-17, -1e-17, 1e-16, 2.2e-16, f64::EPSILON, -f64::EPSILON, 2.3e-16, 1e-15, 1e-12, 1e-9, 1e-6, 1e-4, 1e-3, 1e-2, 0.1, -0.1, 0.5, -0.5, 1.0, 3.0, 10.0, 100.0, -100.0];
+    let specials = [0.0, 5e-324, -5e-324, 1e-310, -1e-310, 2.2e-308, 1e-17, -1e-17, 1e-16, 2.2e-16, f64::EPSILON, -f64::EPSILON, 2.3e-16, 1e-15, 1e-12, 1e-9, 1e-6, 1e-4, 1e-3, 1e-2, 0.1, -0.1, 0.5, -0.5, 1.0, 3.0, 10.0, 100.0, -100.0,
+        // either side of powers of f64::EPSILON (4.9e-32, 1.49e-8, 6.06e-6, 1.22e-4): a guard written on h^2, h^3 or sqrt(h)
+        4e-32, 6e-32, 2e-9, 5e-9, -8e-9, 1e-8, 1.4e-8, -1.4e-8, 1.6e-8, 3e-8, 1e-7, 5e-6, 7e-6, -7e-6, 1.1e-4, 1.3e-4];
     let n = ctx.tier.pick(40_000, 1_500_000);
     ctx.cases("hook", n, |ctx, i, rng| {
         ctx.eval();
@@ -201,7 +203,7 @@ fn run(ctx: &mut Ctx) {
         let p = [x0, y0, z0, r_helix, phi0, h];
         let dist = *rng.pick(&[0.0, 0.11, 0.15, r_helix, 0.19, 1e-300, 1e-17]);
         let (x, y, z, what) = match i % 6 {
-            0 => (x0, y0, z0 + rng.range(-0.5, 0.5), "point exactly on the helix axis"),
+            0 => (x0, y0, z0 + rng.range(-1.2, 1.2), "point exactly on the helix axis"),
             1 => (x0 - dist * phi0.cos(), y0 - dist * phi0.sin(), z0, "point opposite the t = 0 point, in the plane z = z0"),
             2 => (x0 + dist * phi0.cos(), y0 + dist * phi0.sin(), z0, "point on the t = 0 ray, in the plane z = z0"),
             3 => {
